@@ -170,8 +170,17 @@ func (d *DataRow) SetReferences() (err error) {
 	return
 }
 
+// isMissingOptionalColumn returns true if the column is an optional one which is not provided by the backend of this row.
+// Such columns have no (valid) slot in the data row and must be answered with the empty value.
+func (d *DataRow) isMissingOptionalColumn(col *Column) bool {
+	return col.Optional != NoFlags && d.dataStore.peer != nil && !d.dataStore.peer.HasFlag(col.Optional)
+}
+
 // GetString returns the string value for given column.
 func (d *DataRow) GetString(col *Column) string {
+	if d.isMissingOptionalColumn(col) {
+		return interface2stringNoDedup(col.GetEmptyValue())
+	}
 	switch col.StorageType {
 	case LocalStore:
 		switch col.DataType {
@@ -216,6 +225,9 @@ func (d *DataRow) GetStringByName(name string) string {
 
 // GetStringList returns the string list for given column.
 func (d *DataRow) GetStringList(col *Column) []string {
+	if d.isMissingOptionalColumn(col) {
+		return interface2stringlist(col.GetEmptyValue())
+	}
 	switch col.StorageType {
 	case LocalStore:
 		if col.DataType == StringListCol {
@@ -242,6 +254,9 @@ func (d *DataRow) GetStringListByName(name string) []string {
 
 // GetFloat returns the float64 value for given column.
 func (d *DataRow) GetFloat(col *Column) float64 {
+	if d.isMissingOptionalColumn(col) {
+		return interface2float64(col.GetEmptyValue())
+	}
 	switch col.StorageType {
 	case LocalStore:
 		switch col.DataType {
@@ -269,6 +284,9 @@ func (d *DataRow) GetFloat(col *Column) float64 {
 
 // GetInt8 returns the int8 value for given column.
 func (d *DataRow) GetInt8(col *Column) int8 {
+	if d.isMissingOptionalColumn(col) {
+		return interface2int8(col.GetEmptyValue())
+	}
 	switch col.StorageType {
 	case LocalStore:
 		switch col.DataType {
@@ -294,6 +312,9 @@ func (d *DataRow) GetInt8(col *Column) int8 {
 
 // GetInt64 returns the int64 value for given column.
 func (d *DataRow) GetInt64(col *Column) int64 {
+	if d.isMissingOptionalColumn(col) {
+		return interface2int64(col.GetEmptyValue())
+	}
 	switch col.StorageType {
 	case LocalStore:
 		switch col.DataType {
@@ -331,6 +352,9 @@ func (d *DataRow) GetInt64ByName(name string) int64 {
 
 // GetInt64List returns the int64 list for given column.
 func (d *DataRow) GetInt64List(col *Column) []int64 {
+	if d.isMissingOptionalColumn(col) {
+		return interface2int64list(col.GetEmptyValue())
+	}
 	switch col.StorageType {
 	case LocalStore:
 		if col.DataType == Int64ListCol {
@@ -357,6 +381,9 @@ func (d *DataRow) GetInt64ListByName(name string) []int64 {
 
 // GetServiceMemberList returns the a list of service members.
 func (d *DataRow) GetServiceMemberList(col *Column) []ServiceMember {
+	if d.isMissingOptionalColumn(col) {
+		return interface2servicememberlist(col.GetEmptyValue())
+	}
 	switch col.StorageType {
 	case LocalStore:
 		if col.DataType == ServiceMemberListCol {
@@ -383,6 +410,9 @@ func (d *DataRow) GetServiceMemberListByName(name string) []ServiceMember {
 
 // GetInterfaceList returns the a list of interfaces.
 func (d *DataRow) GetInterfaceList(col *Column) []interface{} {
+	if d.isMissingOptionalColumn(col) {
+		return interface2interfacelist(col.GetEmptyValue())
+	}
 	switch col.StorageType {
 	case LocalStore:
 		if col.DataType == InterfaceListCol {
